@@ -318,6 +318,16 @@ def calls_for(rng, fut, n_random=30, full=False):
     out.append(('read_correlated_diagonal', (0, 0, 1000, None, None)))
     out.append(('read_correlated_diagonal', (0, 1, 1, None, None)))
     out.append(('read_anticorrelated_diagonal', (1, 0, 1, n_s, n_s + 1)))
+    # empty, reversed and over-long crops and sample windows of BOTH diagonal families (the longest diagonals)
+    for meth, dg, L in (('read_correlated_diagonal', 0, szutils.get_correlated_diagonal_length(0, n_il, n_xl)),
+                        ('read_anticorrelated_diagonal', min(n_il, n_xl) - 1, szutils.get_anticorrelated_diagonal_length(min(n_il, n_xl) - 1, n_il, n_xl))):
+        m = max(1, L // 2)
+        for ab in ((m, m), (0, 0), (L, L), (m, m - 1), (L, 0), (0, L + 1), (-1, L), (L, L + 1)):
+            out.append((meth, (dg, ab[0], ab[1], None, None)))
+        z = max(1, n_s // 2)
+        for w in ((z, z), (0, 0), (n_s, n_s), (z, z - 1), (0, n_s + 1), (-1, n_s)):
+            out.append((meth, (dg, None, None, w[0], w[1])))
+            out.append((meth, (dg, 0, L, w[0], w[1])))
     return out
 
 
